@@ -1,5 +1,12 @@
 ----------------------------- MODULE Keepalive -----------------------------
-(***************************************************************************)
+(*************************************************************************)
+(* Only a Pong is a sign of life.  Other traffic from the peer (its own     *)
+(* Ping, data frames) does not appear in the state of this model at all:   *)
+(* it changes nothing.  The cases replayed on the real task come with and  *)
+(* without such "chatter" (MC_KeepaliveCases.tla), and the trace           *)
+(* specification ignores the chatter events, so an implementation that     *)
+(* counts them as life is reported as NoTimeoutDetected / ExitTooLate.     *)
+(*****)
 (* C16: timed model of the keepalive of penguin-mux (task.rs               *)
 (* schedule_ping_task, config.rs clamp).  Integer time.                    *)
 (*                                                                         *)
